@@ -47,12 +47,15 @@ pub fn json_list(items: &[String]) -> String {
 
 /// The host function `print`: appends the ToString of its arguments (joined by a blank) to TRACE.
 pub fn print(_this: &JsValue, args: &[JsValue], ctx: &mut Context) -> JsResult<JsValue> {
-    let mut parts = Vec::new();
-    for a in args {
+    let mut units: Vec<u16> = Vec::new();
+    for (i, a) in args.iter().enumerate() {
         let s = a.to_string(ctx)?;
-        parts.push(json_units(&s.iter().collect::<Vec<u16>>()));
+        if i > 0 {
+            units.push(0x20);
+        }
+        units.extend(s.iter());
     }
-    TRACE.with(|t| t.borrow_mut().push(parts.join(" ")));
+    TRACE.with(|t| t.borrow_mut().push(json_units(&units)));
     Ok(JsValue::undefined())
 }
 
